@@ -115,8 +115,38 @@ def _rewrite(e, module, wrappers, facts, log, where, depth=0):
     return e
 
 
+def _self_paths(node, ty):
+    """N2  `Self::X` in expressions and patterns of an impl block is the same path as `Type::X`: rewritten in place (type
+    strings such as `-> Self` are left alone, only path segments of expression / pattern nodes change)."""
+    n = 0
+    if isinstance(node, list):
+        for x in node:
+            n += _self_paths(x, ty)
+    elif isinstance(node, dict):
+        if node.get("k") in ("path", "tstruct", "struct", "call") or "segs" in node:
+            segs = node.get("segs")
+            if isinstance(segs, list) and len(segs) >= 2 and segs[0] == "Self":
+                segs[0] = ty
+                n += 1
+        for v in node.values():
+            if isinstance(v, (dict, list)):
+                n += _self_paths(v, ty)
+    return n
+
+
 def apply(facts):
     facts.normalised = []
+    import re as _re
+
+    for key, fn in facts.fns.items():
+        if fn.impl is None or fn.body is None:
+            continue
+        ty = _re.sub(r"\s+", "", fn.impl["self_ty"] or "")
+        ty = _re.sub(r"<(?:'[A-Za-z_]+,?)+>", "", ty)
+        if _re.fullmatch(r"[A-Za-z_][A-Za-z0-9_]*", ty):
+            k_ = _self_paths(fn.node["body"], ty)
+            if k_:
+                facts.normalised.append("%s: %d `Self::` paths read as `%s::`" % (key, k_, ty))
     wrappers = ctor_wrappers(facts)
     if not wrappers:
         return facts
